@@ -558,9 +558,42 @@ def regional_oracle(res):
                     for c in chars:
                         ops += [["set_mathml", "<math><mi>x</mi><mo>&#x%X;</mo><mi>y</mi></math>" % c], ["get_spoken_text"]]
                 sessions.append({"id": len(sessions), "ops": ops})
+            # ... also when the language is changed inside a session: language -> region -> language and the other way round
+            speak = []
+            for c in chars:
+                speak += [["set_mathml", "<math><mi>x</mi><mo>&#x%X;</mo><mi>y</mi></math>" % c], ["get_spoken_text"]]
+            tags = (lang, "%s-%s" % (lang, region))
+            for first in (0, 1):
+                ops = [["set_rules_dir", C.RULES], ["set_preference", "SpeechStyle", cfgs[0][0]], ["set_preference", "Verbosity", cfgs[0][1]]]
+                for t in (first, 1 - first, first):
+                    ops += [["set_preference", "Language", tags[t]]] + speak
+                sessions.append({"id": len(sessions), "ops": ops})
             out = C.run_harness(sessions)
+            switched, out = out[2:], out[:2]
             if len(out) != 2 or any(len(o.get("res") or []) != 2 + len(cfgs) * (2 + 2 * len(chars)) for o in out):
                 continue
+            fresh = [[o["res"][2 + 2 + 2 * j + 1] for j in range(len(chars))] for o in out]       # the first configuration's block
+            for first, sw in zip((0, 1), switched):
+                rs = sw.get("res") or []
+                if len(rs) != 3 + 3 * (1 + 2 * len(chars)):
+                    continue
+                for b, t in enumerate((first, 1 - first, first)):
+                    at = 3 + b * (1 + 2 * len(chars)) + 1
+                    got = [rs[at + 2 * j + 1] for j in range(len(chars))]
+                    res.add_case(("regional-switch", lang, region, first, b), nontrivial=b > 0)
+                    bad = [j for j in range(len(chars)) if got[j] != fresh[t][j]]
+                    if bad:
+                        c = chars[bad[0]]
+                        res.violation("Language changed to %s inside a session (%s): x U+%04X y is spoken %r, a session that only ever had %s says %r"
+                                      % (tags[t], " -> ".join(tags[k] for k in (first, 1 - first, first)[:b + 1]), c, got[bad[0]].get("ok", got[bad[0]]), tags[t],
+                                         fresh[t][bad[0]].get("ok", fresh[t][bad[0]])),
+                                      {"kind": "switch", "ops": sessions[2 + first]["ops"][:at + 2 * bad[0] + 2], "language": tags[t],
+                                       "fresh_ops": [["set_preference", "Language", tags[t]], ["set_preference", "SpeechStyle", cfgs[0][0]], ["set_preference", "Verbosity", cfgs[0][1]],
+                                                     ["set_mathml", "<math><mi>x</mi><mo>&#x%X;</mo><mi>y</mi></math>" % c], ["get_spoken_text"]]})
+                        nv += 1
+                        break
+                if nv >= 3:
+                    return nv
             for j, c in enumerate(chars):
                 same = True
                 for k in range(len(cfgs)):
@@ -608,6 +641,12 @@ def run(res):
 
 def replay(path):
     rep = json.load(open(path, encoding="utf-8"))
+    if rep.get("kind") == "switch":
+        C.build_harness()
+        a = C.one_session(rep["ops"][1:])["res"][-1]
+        b = C.one_session(rep["fresh_ops"])["res"][-1]
+        print("after the switch:", a, "\nfresh session:   ", b)
+        return 1 if a != b else 0
     ok, log = C.build_harness()
     if not ok:
         print("harness build failed", log)
